@@ -128,9 +128,28 @@ func init() {
 		}
 		return hx(strings.TrimPrefix(b, "v0.0."))
 	}
+	// pseudo.history k:<hex> k:<hex> …  — a call HISTORY: the calls are made one after the other in this process
+	// (k = i IsPseudoVersion, b PseudoVersionBase, r PseudoVersionRev, t PseudoVersionTime), results as "[r1,r2,…]".
+	// The model answers each call on its own (pure functions), so an answer that depends on the calls made before
+	// it is a disagreement that reproduces when the one line is re-run alone.
+	impls["pseudo.history"] = func(a []string) string {
+		outs := make([]string, len(a))
+		for i, tok := range a {
+			j := strings.IndexByte(tok, ':')
+			if j != 1 {
+				return "bad-op"
+			}
+			op := map[byte]string{'i': "pseudo.ispseudo", 'b': "pseudo.base", 'r': "pseudo.rev", 't': "pseudo.time"}[tok[0]]
+			if op == "" {
+				return "bad-op"
+			}
+			outs[i] = impls[op]([]string{tok[2:]})
+		}
+		return "[" + strings.Join(outs, ",") + "]"
+	}
 	impls["pseudo.compare"] = func(a []string) string { return itoa(semver.Compare(unhx(a[0]), unhx(a[1]))) }
 	register(&Prop{ID: "C18", Gen: c18Gen, Oracle: c18Oracle,
-		Rule: "PseudoVersion on (major, base, instant, revision): bases from the semver grammar incl. prereleases, shortened forms, +incompatible and other build metadata (grammar-built build identifiers incl. digits-only ones with leading zeroes, where build and prerelease grammars differ), patch numbers of 1-40 digits with all-nines carries and 10…0 borrows; instants across years 1-9999 UTC incl. range boundaries, leap days, year ends, the 1970 epoch and negative Unix seconds (a few outside the range), the Go side in a hash-derived zone with hash-derived nanoseconds; revisions alnum 1-40; the parsers on generated pseudo-versions, grammar-built look-alikes (invalid dates, 13/15-digit stamps, build parts, nested -0. forms) and one-byte mutations; non-trivial = base valid or empty and revision alnum, or parser input is a pseudo-version or one mutation from one; distinct by op line"})
+		Rule: "PseudoVersion on (major, base, instant, revision): bases from the semver grammar incl. prereleases, shortened forms, +incompatible and other build metadata (grammar-built build identifiers incl. digits-only ones with leading zeroes, where build and prerelease grammars differ), patch numbers of 1-40 digits with all-nines carries and 10…0 borrows; instants across years 1-9999 UTC incl. range boundaries, leap days, year ends, the 1970 epoch and negative Unix seconds (a few outside the range), the Go side in a hash-derived zone with hash-derived nanoseconds; revisions alnum 1-40; the parsers on generated pseudo-versions, grammar-built look-alikes (invalid dates, 13/15-digit stamps, build parts, nested -0. forms) and one-byte mutations; call HISTORIES (pseudo.history: Base/Time/Rev/IsPseudoVersion calls made one after the other on a family of pseudo-versions that differ only in the build suffix — none, +incompatible, grammar-built — interleaved with unrelated pseudo-versions, unparsable strings and one-byte mutations, in both orders); non-trivial = base valid or empty and revision alnum, or parser input is a pseudo-version or one mutation from one; distinct by op line"})
 }
 
 // ---- generators
@@ -476,7 +495,20 @@ func c18Gen(g *Gen, n int) {
 		g.Emit("pseudo.format "+i64toa(s), true, "format-boundary")
 	}
 	for g.st.Ops < n {
-		switch g.Intn(20) {
+		switch g.Intn(22) {
+		case 20, 21: // call histories on build-suffix twins (see c18GenFamily)
+			f := c18GenFamily(g.Rand)
+			calls := c18GenHistory(g.Rand, f)
+			toks := make([]string, len(calls))
+			for i, c := range calls {
+				toks[i] = c18HistTok(c, f)
+			}
+			g.Emit("pseudo.history "+strings.Join(toks, " "), true, "history", "history:"+f.kind)
+			if g.Chance(30) { // the same history as consecutive single ops
+				for _, c := range calls {
+					g.Emit(c18HistOp(c, f), true, "history:single-ops")
+				}
+			}
 		case 0, 1, 2, 3, 4, 5, 6: // construct, then parse the result and a mutation of it
 			older, okBase := c18GenBase(g.Rand)
 			major := c18GenMajor(g.Rand, older)
@@ -546,6 +578,243 @@ func c18Gen(g *Gen, n int) {
 			if a != "panic" && b != "panic" && a != "hang" && b != "hang" {
 				g.Emit("pseudo.compare "+a+" "+b, okBase, "construct:pair")
 			}
+		}
+	}
+}
+
+// ---- call histories
+//
+// Input class added: SEQUENCES of parser calls on RELATED strings.  Every other stream feeds the parsers independent
+// inputs (one string, all its accessors, then an unrelated string), which is blind to any state kept between calls
+// (a memo of the last parse, a cache keyed by a derived string): such state only shows when a call on X+build is
+// directly followed by a call on X — the same pseudo-version without its build suffix — or the other way round.
+// A family is one (base core, instant, revision) with several build suffixes (none, +incompatible, grammar-built),
+// plus bystanders: the same base at another revision / instant, an unrelated pseudo-version, a string that no
+// accessor can parse (a failed call in between must not matter either), and one-byte mutations of a member.
+
+type c18Member struct {
+	v      string
+	domain bool   // v = PseudoVersion(major, older, t, rev) for a valid-or-empty base: the property fixes every answer
+	base   string // expected PseudoVersionBase
+	secs   int64  // expected PseudoVersionTime
+	rev    string // expected PseudoVersionRev
+	ops    []string
+}
+
+type c18Family struct {
+	kind    string // nobase | release | prerelease
+	members []c18Member
+	twins   int // members[0:twins] differ only in the build suffix; members[0] has none
+}
+
+type c18Call struct {
+	fn  byte // i b r t
+	idx int
+}
+
+func c18MkMember(major, older string, secs int64, rev string) c18Member {
+	m := c18Member{domain: true, secs: secs, rev: rev}
+	if older != "" {
+		sp, ok := c18ParseSpec(older)
+		if !ok {
+			panic("c18MkMember: base outside the grammar: " + older)
+		}
+		m.base = sp.canon + sp.build
+	}
+	op := "pseudo.pseudoversion " + hx(major) + " " + hx(older) + " " + i64toa(secs) + " " + hx(rev)
+	m.v = module.PseudoVersion(major, older, c18Time(secs, op), rev)
+	m.ops = []string{op}
+	return m
+}
+
+// c18GenCore: a valid base WITHOUT build metadata in canonical form (so that a build suffix can be appended), or "".
+func c18GenCore(r *Rand) (core string, sp c18Spec) {
+	if r.Chance(15) {
+		return "", sp
+	}
+	for {
+		v, _ := c18GenBase(r)
+		if s, ok := c18ParseSpec(v); ok {
+			return s.canon, s
+		}
+	}
+}
+
+func c18GenFamily(r *Rand) c18Family {
+	var f c18Family
+	core, sp := c18GenCore(r)
+	secs := c18GenSecs(r)
+	rev := c18GenRev(r)
+	major := sp.major
+	if core == "" {
+		major = r.Pick([]string{"", "v0", "v1", "v2", "v3", "v" + genNum(r)})
+	}
+	builds := []string{"+incompatible"}
+	for k := r.Intn(3); k > 0; k-- {
+		builds = append(builds, c18GenBuild(r))
+	}
+	if r.Chance(20) {
+		builds = append(builds, r.Pick([]string{"+meta.7", "+a-b.c-d", "+0", "+00", "+incompatible.1", "+-"}))
+	}
+	plain := c18MkMember(major, core, secs, rev)
+	f.members = append(f.members, plain)
+	switch {
+	case core == "":
+		f.kind = "nobase"
+		// vX.0.0-<ts>-<rev>+build is recognised but has no base to carry the build: outside the property's domain
+		// (the accessors are called on it, their answers are not judged); the plain twin stays inside.
+		for _, b := range builds {
+			f.members = append(f.members, c18Member{v: plain.v + b})
+		}
+	default:
+		f.kind = "release"
+		if sp.pre {
+			f.kind = "prerelease"
+		}
+		for _, b := range builds {
+			f.members = append(f.members, c18MkMember(major, core+b, secs, rev))
+		}
+	}
+	f.twins = len(f.members)
+	// bystanders
+	for k := r.Intn(3); k > 0; k-- {
+		switch r.Intn(6) {
+		case 0: // same base and instant, another revision
+			f.members = append(f.members, c18MkMember(major, core, secs, c18GenRev(r)))
+		case 1: // same base and revision, another instant
+			f.members = append(f.members, c18MkMember(major, core, c18GenSecs(r), rev))
+		case 2: // unrelated pseudo-version
+			c2, sp2 := c18GenCore(r)
+			m2 := sp2.major
+			if c2 == "" {
+				m2 = "v1"
+			} else if r.Bool() {
+				c2 += r.Pick(builds)
+			}
+			f.members = append(f.members, c18MkMember(m2, c2, c18GenSecs(r), c18GenRev(r)))
+		case 3: // not parsable by any accessor
+			f.members = append(f.members, c18Member{v: r.Pick([]string{"", "v1.2.3", core, plain.v + "+", "v1.0.0-20060102150405", plain.v[:strings.LastIndex(plain.v, "-")+1], "v0.0.0-00000000000000-0+a+b"})})
+		case 4: // one byte away from a twin
+			f.members = append(f.members, c18Member{v: mutate(r, f.members[r.Intn(f.twins)].v, c18MutAlphabet)})
+		default: // a look-alike
+			f.members = append(f.members, c18Member{v: c18GenLookalike(r)})
+		}
+	}
+	return f
+}
+
+const c18HistFns = "btrbtrbi" // Base, Time, Rev mostly
+
+// c18GenHistory: 2-8 calls on the members of f.  Templates put a call on a twin WITH build suffix directly (or with
+// one bystander call in between) before PseudoVersionBase of another twin, in both orders; the rest is random.
+func c18GenHistory(r *Rand, f c18Family) []c18Call {
+	fn := func() byte { return c18HistFns[r.Intn(len(c18HistFns))] }
+	withBuild := func() int { return 1 + r.Intn(f.twins-1) }
+	other := func(not int) int {
+		for {
+			if k := r.Intn(f.twins); k != not {
+				return k
+			}
+		}
+	}
+	by := func() int {
+		if len(f.members) > f.twins {
+			return f.twins + r.Intn(len(f.members)-f.twins)
+		}
+		return r.Intn(len(f.members))
+	}
+	var cs []c18Call
+	xb := withBuild()
+	switch r.Intn(8) {
+	case 0, 1: // build first, then the base of the plain twin
+		cs = []c18Call{{fn(), xb}, {'b', 0}}
+	case 2: // plain first, then build, then both again
+		cs = []c18Call{{fn(), 0}, {fn(), xb}, {'b', xb}, {'b', 0}}
+	case 3: // a bystander in between
+		cs = []c18Call{{fn(), xb}, {fn(), by()}, {'b', 0}, {'b', xb}}
+	case 4: // two different build suffixes
+		cs = []c18Call{{fn(), xb}, {'b', other(xb)}, {'b', xb}}
+	case 5: // all three accessors on one twin, then all three on another
+		o := other(xb)
+		cs = []c18Call{{'b', xb}, {'t', xb}, {'r', xb}, {'b', o}, {'t', o}, {'r', o}}
+	}
+	for k := 2 + r.Intn(5); len(cs) < 8 && k > 0; k-- {
+		cs = append(cs, c18Call{fn(), r.Intn(len(f.members))})
+	}
+	return cs
+}
+
+func c18HistTok(c c18Call, f c18Family) string { return string(c.fn) + ":" + hx(f.members[c.idx].v) }
+
+func c18HistOp(c c18Call, f c18Family) string {
+	return map[byte]string{'i': "pseudo.ispseudo ", 'b': "pseudo.base ", 'r': "pseudo.rev ", 't': "pseudo.time "}[c.fn] + hx(f.members[c.idx].v)
+}
+
+// c18OracleHistory: the round-trip clause holds for EVERY generated pseudo-version, whatever was asked before:
+// each call of a history on a member inside the property's domain is compared with the spec (canonical base with
+// build suffix, instant in UTC seconds, revision, recognised).  Calls on members outside the domain (bystander
+// strings, vX.0.0-…+build) are made and not judged.
+func c18OracleHistory(g *Gen) {
+	f := c18GenFamily(g.Rand)
+	calls := c18GenHistory(g.Rand, f)
+	g.Case("history")
+	g.Case("history:" + f.kind)
+	toks := make([]string, 0, len(calls))
+	for n, c := range calls {
+		m := f.members[c.idx]
+		toks = append(toks, c18HistTok(c, f))
+		what, got := "", ""
+		switch c.fn {
+		case 'i':
+			ok := module.IsPseudoVersion(m.v)
+			if m.domain && !ok {
+				what = "pseudo-version is not recognised by IsPseudoVersion"
+			}
+		case 'b':
+			b, err := module.PseudoVersionBase(m.v)
+			if m.domain && (err != nil || b != m.base) {
+				what, got = "PseudoVersionBase does not recover the canonical base with build suffix", b
+			}
+		case 't':
+			tm, err := module.PseudoVersionTime(m.v)
+			if m.domain && (err != nil || !tm.Equal(time.Unix(m.secs, 0)) || tm.Location() != time.UTC || tm.Nanosecond() != 0) {
+				what = "PseudoVersionTime does not recover the time truncated to seconds in UTC"
+			}
+		case 'r':
+			rv, err := module.PseudoVersionRev(m.v)
+			if m.domain && (err != nil || rv != m.rev) {
+				what, got = "PseudoVersionRev does not recover the revision", rv
+			}
+		}
+		if !m.domain {
+			continue
+		}
+		g.Case("history:judged-call")
+		if n > 0 && f.members[calls[n-1].idx].v != m.v && c.idx < f.twins && calls[n-1].idx < f.twins {
+			g.Case("history:call-directly-after-build-twin")
+		}
+		if what != "" {
+			// replay: how each member was made, then the history up to the failing call (one line, same process)
+			var ops []string
+			seen := map[int]bool{}
+			for _, c2 := range calls[:n+1] {
+				if !seen[c2.idx] {
+					seen[c2.idx] = true
+					ops = append(ops, f.members[c2.idx].ops...)
+				}
+			}
+			ops = append(ops, "pseudo.history "+strings.Join(toks, " "))
+			prev := make([]string, 0, n)
+			for _, c2 := range calls[:n] {
+				prev = append(prev, string(c2.fn)+"("+f.members[c2.idx].v+")")
+			}
+			if n > 0 { // n == 0: nothing was asked before, the plain signature applies.  Otherwise the failure may or may not
+				// depend on the earlier calls (no way to tell inside one process): the replay line carries them.
+				what += " (within a call history)"
+			}
+			g.Fail(what,
+				"call "+string(c.fn)+"("+m.v+") got="+got+" want base="+m.base+" rev="+m.rev+" secs="+i64toa(m.secs)+" after: "+strings.Join(prev, " "), ops...)
+			return
 		}
 	}
 }
@@ -654,6 +923,9 @@ func c18ParseSpec(v string) (c18Spec, bool) {
 
 func c18Oracle(g *Gen, n int) {
 	for i := 0; i < n; i++ {
+		if i%2 == 1 { // one history case for every two single-version cases, on top of them
+			c18OracleHistory(g)
+		}
 		older, _ := c18GenBase(g.Rand)
 		spec, specOK := c18ParseSpec(older)
 		for older != "" && !specOK { // the domain is decided by the grammar, never by the implementation
